@@ -27,6 +27,7 @@ pub struct ClosureInfo {
     pub body_is_block: bool,
     pub params: Vec<(usize, usize, bool)>, // span of pattern, is simple identifier
     pub deref_names: Vec<Option<String>>,  // `&name` patterns: Some(name)
+    pub key: String,                       // `<callee>#<k>`: k-th closure passed directly to a call of <callee>
 }
 
 #[derive(Default)]
@@ -37,8 +38,11 @@ pub struct Collector {
     pub closures: Vec<(usize, usize)>,
     pub closure_nodes: Vec<ClosureInfo>,
     pub method_calls: Vec<(String, Vec<(usize, usize)>)>, // method name, argument spans
+    pub method_recvs: Vec<(String, (usize, usize))>,      // method name, receiver span
     pub macros: Vec<(String, (usize, usize))>,
     pub lets: Vec<(String, (usize, usize))>, // `let NAME = <init>`: name, init span
+    pub closure_callee: std::collections::HashMap<usize, String>, // closure span start -> callee name
+    pub key_counts: std::collections::HashMap<String, usize>,
 }
 
 impl<'ast> Visit<'ast> for Collector {
@@ -73,7 +77,13 @@ impl<'ast> Visit<'ast> for Collector {
         syn::visit::visit_expr_loop(self, e);
     }
     fn visit_expr_method_call(&mut self, e: &'ast syn::ExprMethodCall) {
+        for a in e.args.iter() {
+            if let syn::Expr::Closure(c) = a {
+                self.closure_callee.insert(br(c.span()).0, e.method.to_string());
+            }
+        }
         self.method_calls.push((e.method.to_string(), e.args.iter().map(|a| br(a.span())).collect()));
+        self.method_recvs.push((e.method.to_string(), br(e.receiver.span())));
         syn::visit::visit_expr_method_call(self, e);
     }
     fn visit_expr_closure(&mut self, e: &'ast syn::ExprClosure) {
@@ -99,7 +109,12 @@ impl<'ast> Visit<'ast> for Collector {
                 _ => None,
             })
             .collect();
+        let callee = self.closure_callee.get(&sp.0).cloned().unwrap_or_else(|| "_".to_string());
+        let k = self.key_counts.entry(callee.clone()).or_insert(0);
+        let key = format!("{}#{}", callee, *k);
+        *k += 1;
         self.closure_nodes.push(ClosureInfo {
+            key,
             deref_names,
             span: sp,
             body: br(e.body.span()),
@@ -224,7 +239,9 @@ pub fn item_rewrites(it: &syn::Item, src: &str, _mode: &str, edits: &mut Vec<Edi
         syn::Item::Fn(f) => {
             attr_edits(&f.attrs, src, edits, rewrites);
             vis_edit(&f.vis, br(f.sig.span()).0, edits, rewrites);
-            drop_print_stmts(&f.block, src, edits, rewrites);
+            if _mode != "trusted" {
+                drop_print_stmts(&f.block, src, edits, rewrites);
+            }
         }
         syn::Item::Impl(im) => {
             attr_edits(&im.attrs, src, edits, rewrites);
